@@ -39,7 +39,8 @@ impl Hash for Value {
     fn hash<H: Hasher>(&self, state: &mut H) {
         match self {
             Value::Null => state.write_u8(0),
-            Value::Number(n) => state.write_u64(n.to_bits()), // Ensures consistent hashing
+            // 0 and -0 are equal, so they must hash alike
+            Value::Number(n) => state.write_u64(if *n == 0.0 { 0.0f64 } else { *n }.to_bits()),
             Value::Bool(b) => state.write_u8(if *b { 1 } else { 0 }),
             Value::String(s) => s.hash(state),
             Value::List(list) => {
